@@ -477,7 +477,9 @@ def unit_oracle(case, obs):
         p = find_directive(obs)
         if p:
             return ("strip: directive key left in the result", f"_strip_koreo_directives left {p[-1]!r} at {p}")
-        return strip_only_removed(case["j"], obs)
+        # (that nothing ELSE changes is not in the property text: it is checked by the correspondence with
+        #  the model — theorem C08_strip_only_removes — not by this oracle)
+        return None
     if k == "prepare" and obs[0] == "done":
         body, recorded = obs[1]
         p = find_directive(body)
@@ -493,21 +495,6 @@ def unit_oracle(case, obs):
             why = annotation_problem(real)
             if why:
                 return ("prepare: " + why, why)
-    return None
-
-
-def strip_only_removed(j, out):
-    """everything that is not a directive entry is unchanged (values, order, list positions)."""
-    def expect(v):
-        if isinstance(v, dict):
-            return {k: expect(x) for k, x in v.items() if k not in DIRECTIVES}
-        if isinstance(v, list):
-            return [expect(x) for x in v]
-        return v
-    want = expect(j)
-    if json.dumps(want, ensure_ascii=False) != json.dumps(out, ensure_ascii=False):
-        return ("strip: something other than directive entries changed",
-                "_strip_koreo_directives changed a value, a position or the key order of a non-directive entry")
     return None
 
 
